@@ -336,6 +336,7 @@ func parseGroup(mp *msgParser, tags []Tag) {
 		mp.rawBytes, _ = extractField(mp.parsedFieldBytes, mp.rawBytes)
 		mp.trailerBytes = mp.rawBytes
 
+	classify:
 		// Is this field a member for the group.
 		if isGroupMember(mp.parsedFieldBytes.tag, fields) {
 			// Is this field a nested repeating group.
@@ -368,7 +369,25 @@ func parseGroup(mp *msgParser, tags []Tag) {
 				// Cycle again with the new group.
 				dm = mp.msg.fields[mp.fieldIndex : mp.fieldIndex+1]
 				fields = getGroupFields(mp.msg, searchTags, mp.appDataDictionary)
+				// The new group is not nested in the one just finished.
+				tags = searchTags
 				continue
+			}
+			if len(tags) > 1 {
+				// The nested group(s) ended. If the field is a member of an enclosing group, leave
+				// the nested levels and classify it again there; otherwise it lies outside the
+				// whole group and is an ordinary body field.
+				for depth := len(tags) - 1; depth >= 1; depth-- {
+					enclosing := getGroupFields(mp.msg, tags[:depth], mp.appDataDictionary)
+					if isGroupMember(mp.parsedFieldBytes.tag, enclosing) {
+						tags = tags[:depth]
+						fields = enclosing
+						goto classify
+					}
+				}
+				mp.msg.Body.add(dm)
+				mp.msg.Body.add(mp.msg.fields[mp.fieldIndex : mp.fieldIndex+1])
+				break
 			}
 			if len(tags) > 1 {
 				searchTags = tags[:len(tags)-1]
